@@ -214,8 +214,10 @@ def free_format(items):
         data, count = pat.subn(rb'\1BATCH\n\1\2\n', item['data'], count=1)
         if count != 1:
             continue
+        where = pat.search(item['data']).start()
         out.append({'name': 'freeformat/' + item['base'], 'path': None,
                     'base': 'ff-' + item['base'], 'data': data,
+                    'focus': [max(0, where - 4), where + 60],
                     'twin_of': item['name'], 'rerun': True,
                     'no_twin_ops': True})
     return out
@@ -297,6 +299,9 @@ def build_refs():
             # another exception stays in: that is a violation, reported by
             # the operations on it
             foreign = ref['scan'].startswith('other') or ref.get('other')
+            if 'with-a-hole' in item['name']:
+                # the parser's own error is the expected answer here
+                continue
             if not foreign and (
                     ref['scan'] != 'ok' or len(ref['batches']) != 2 or
                     any(ref['res'].get(b) is None for b in ref['batches'])):
@@ -562,6 +567,9 @@ def key_offsets(item):
         elif any(k in text for k in KEYWORDS):
             offs.extend(range(pos, min(end + 1, len(data) + 1)))
         pos = end
+    if item.get('focus'):
+        endflag.extend(range(item['focus'][0],
+                             min(item['focus'][1], len(data)) + 1))
     item['_keyoffs'] = (endflag, offs)
     return item['_keyoffs']
 
